@@ -1,0 +1,24 @@
+//! Verification hooks, compiled only with `--cfg rten_verif`.
+//!
+//! This module re-exports crate-private types so that an external
+//! verification harness can build graphs, plan and run them, and call
+//! operators directly. It adds no behaviour.
+
+pub use crate::buffer_pool::*;
+pub use crate::constant_storage::*;
+pub use crate::graph::{
+    CaptureEnv, Constant, ConstantNode, ConstantNodeData, Dimension, Graph, Node, NodeId,
+    OperatorNode, PlanOptions, RunError, RunErrorKind, RunOptions, TypedConstant,
+};
+pub use crate::infer_shapes::*;
+pub use crate::op_registry::*;
+pub use crate::operator::*;
+pub use crate::optimize::{GraphOptimizer, OptimizeError, OptimizeOptions};
+pub use crate::timing::*;
+pub use crate::value::*;
+pub use crate::weight_cache::WeightCache;
+
+/// Operator structs.
+pub mod ops {
+    pub use crate::ops::verif_ops::*;
+}
